@@ -271,6 +271,19 @@ func subProds() []func() *g.Prod {
 	}
 }
 
+// unionLeaves: @@ of a union production (interface-typed field) with two struct members, in both orders.
+func unionLeaves(mods []byte) []func() *g.Node {
+	sp := subProds()
+	mk := func(slot int, a, b int) func() *g.Node {
+		return func() *g.Node {
+			u := &g.Prod{Name: fmt.Sprintf("V%d", slot), UnionSlot: slot, Members: []*g.Prod{sp[a](), sp[b]()}}
+			return g.Sub(-1, u)
+		}
+	}
+	atoms := []func() *g.Node{mk(0, 1, 0), mk(1, 3, 2), mk(2, 0, 1)} // one interface type per atom: (S2|S1): first member fails part-way; (S4|S3); (S1|S2): second unreachable
+	return withMods(atoms, mods)
+}
+
 func subLeaves(which []int, mods []byte) []func() *g.Node {
 	sp := subProds()
 	var atoms []func() *g.Node
@@ -430,6 +443,14 @@ func SubProd(t Tier) []*Grammar {
 		ml = 4
 	}
 	out := build("sub2", top(ts), []scheme{schemeOwn}, "abc", ml)
+	// multi-member unions among the leaves
+	ul := []func() *g.Node{lit("b"), capOf(ref("Ident")), func() *g.Node { return g.Grp(capMark(g.Ref("Ident")), '*') }}
+	ul = append(ul, unionLeaves([]byte{0, '?', '*'})...)
+	mu := map[int][]func() *g.Node{}
+	var us []func() *g.Node
+	us = append(us, terms(1, ul, mu)...)
+	us = append(us, terms(2, ul, mu)...)
+	out = append(out, build("union2", top(us), []scheme{schemeOwn}, "abc", ml)...)
 	small := []func() *g.Node{lit("b"), capOf(ref("Ident"))}
 	which := []int{0, 1}
 	if t == Thorough {
